@@ -70,7 +70,8 @@ def analyse(graph, result, X, metric, reported):
             break
     for i, j, v in added:
         ref = reported(X[i].astype(np.float64), X[j].astype(np.float64))
-        if not (abs(v - ref) <= 2e-3 * max(abs(ref), 1e-3) + 1e-5):
+        # hellinger = sqrt(1 - r): one float32 ulp of r near 1 moves the result by ~3.5e-4 (same allowance as C08/C09)
+        if not (abs(v - ref) <= 2e-3 * max(abs(ref), 1e-3) + (5e-4 if metric == "hellinger" else 1e-5)):
             out["problems"].append("added edge (%d,%d) has weight %r, the %s distance of the two points is %r" % (i, j, v, metric, ref))
             break
     # certificate inputs for the extracted checkers
